@@ -131,6 +131,11 @@ def random_schedule(rng):
         elif fate == "ackonly" and con:
             triggers.append({"on": on, "delay": d, "rx": {"r": r, "ty": "ACK", "code": 0, "mid": {"of": q}}})
         # "lost": nothing
+        if rng.random() < 0.12:
+            # role reversal with a colliding token: the peer's tokens are its own business, a request of the peer
+            # may carry the very token of a request this endpoint has outstanding or still holds back for it
+            steps.append({"at": t + rng.choice([1, 2, 30, 800]), "do": "rx", "r": r, "ty": rng.choice(["CON", "NON"]), "code": 1,
+                          "mid": 40000 + q, "tok": {"of": q}, "path": ["nothere"]})
     if rng.random() < 0.25:
         steps.append({"at": rng.randint(0, max(1, t)) + rng.choice([0, 3, 2500]), "do": "err", "r": rng.randint(1, nrem)})
     if rng.random() < 0.3:
@@ -147,6 +152,9 @@ def random_schedule(rng):
             n += 1
             ren[s["q"]] = n
             s["q"] = n
+    for st in steps:
+        if st["do"] == "rx" and isinstance(st.get("tok"), dict):
+            st["tok"] = {"of": ren[st["tok"]["of"]]}
     for tr in triggers:
         tr["on"]["q"] = ren[tr["on"]["q"]]
         for key in ("mid", "tok"):
